@@ -1,6 +1,7 @@
 package props
 
 import (
+	"fmt"
 	"strings"
 
 	"occheck/internal/engine"
@@ -89,6 +90,8 @@ func runC06(c *engine.Ctx, tier string) {
 	c.Guard(engine.Guard{ID: "C06.2c", Pkg: pkgTransactionCtl, None: true, Rule: "K-own(rhs)",
 		Sel: engine.Sel{Field: "config/v2.RollbackProposal.RollbackIndex", NotRHS: "@TRBK.Rollback.RollbackIndex", OnlyLit: true},
 		Why: "a rollback proposal carries the index named by the rollback transaction"})
+	// what is logged per target of a rollback
+	proposalRecords(c, "", "C06.9")
 }
 
 // captureLoop: on the change path every iteration over the change's values assigns
@@ -225,5 +228,83 @@ func captureDomain(c *engine.Ctx) {
 	if capture != commit {
 		o.Fail(&engine.Violation{Key: "reconcileValidate/reconcileCommit|capture domain ≠ write domain", Pos: commitPos, Func: engine.FuncChain(commitPath, commitIdx),
 			Msg: "prior values are captured for " + c.Render(capture) + " but the commit mutates Configuration.Values for every entry of " + c.Render(commit) + ": entries added by the cascade (children of a deleted subtree) are changed without their prior value being captured"})
+	}
+}
+
+// proposalRecords: what the transaction controller logs per target. A change transaction gets, for every
+// target of its change, a proposal with that target's values (each stamped with the transaction's index); a
+// rollback transaction gets, for every target of the change it rolls back, a proposal that names that change.
+// idChange / idRollback select which half is stated (either may be empty).
+func proposalRecords(c *engine.Ctx, idChange, idRollback string) {
+	saved := c.Al
+	c.Al = transactionAliases(c.P)
+	defer func() { c.Al = saved }()
+	paths, err := c.A.Paths(pkgTransactionCtl)
+	type half struct {
+		id, what, vals, details string
+		min                     int
+	}
+	for _, h := range []half{
+		{idChange, "change", "@TCHG.Change.Values", "Details:&config/v2.Proposal_Change{Change:&config/v2.ChangeProposal{Values:make(map[string]*config/v2.PathValue)@", 1},
+		{idRollback, "rollback", "@RBTCHG.Change.Values", "Details:&config/v2.Proposal_Rollback{Rollback:&config/v2.RollbackProposal{RollbackIndex:@TRBK.Rollback.RollbackIndex}}", 1},
+	} {
+		if h.id == "" {
+			continue
+		}
+		o := c.Custom(h.id, "K-dataflow(proposal record)", "reconcileInitialize, "+h.what+" transaction: for every target id k of "+h.vals+" the record given to proposals.Create has ID = NewID(k, T.Index), TargetID = k, TransactionIndex = T.Index and "+
+			map[string]string{"change": "Details = Proposal_Change{Values: a map allocated for this target holding every (path, value) of that target's change, each value stamped Index = T.Index}", "rollback": "Details = Proposal_Rollback{RollbackIndex: the index the rollback transaction names}"}[h.what],
+			"the proposal is all the proposal controller knows: it validates, commits, applies and rolls back exactly what this record says, for the target it names")
+		if err != nil {
+			o.Undecided(pkgTransactionCtl, err.Error())
+			o.Done(0)
+			continue
+		}
+		vals := c.Al.Expand(h.vals)
+		tIdx := c.Al.Expand("@T.Index")
+		for _, st := range engine.FindSites(paths, c.Match(engine.Sel{Call: stPropCreate})) {
+			for _, ref := range st.Refs {
+				p := ref.Path
+				e := &p.Events[ref.Idx]
+				if len(e.Args) != 1 || !strings.Contains(e.Args[0], "key("+vals+")") {
+					continue
+				}
+				o.Site(c.P.Pos(e.Pos))
+				o.Eval(1)
+				arg := e.Args[0]
+				for _, want := range []string{
+					"ID:store/v2/proposal.NewID(key(" + vals + ")," + tIdx + ")",
+					"TargetID:key(" + vals + ")",
+					"TransactionIndex:" + tIdx + "}",
+					c.Al.Expand(h.details),
+				} {
+					if !strings.Contains(arg, want) {
+						o.Fail(&engine.Violation{Key: "reconcileInitialize|" + h.what + " proposal lacks " + c.Render(want[:strings.Index(want, ":")]), Pos: c.P.Pos(e.Pos), Func: engine.FuncChain(p, ref.Idx),
+							Msg: "the " + h.what + " proposal given to Create does not carry " + c.Render(want) + ": " + c.Render(arg)})
+					}
+				}
+				if h.what != "change" {
+					continue
+				}
+				// the values map: allocated inside this target's iteration (C03.15) and filled from this target's change
+				inner := "elem(" + vals + ").Values"
+				iterated, filled, stamped := false, false, false
+				for j := 0; j < ref.Idx; j++ {
+					x := &p.Events[j]
+					switch {
+					case x.Kind == engine.EvLoopEnter && x.Range == inner && j+1 < len(p.Events) && p.Events[j+1].Kind != engine.EvLoopExit:
+						iterated = true
+					case x.Kind == engine.EvWrite && strings.HasPrefix(x.LHS, "make(map[string]*config/v2.PathValue)@") && strings.HasSuffix(x.LHS, "[key("+inner+")]") && x.RHS == "elem("+inner+")":
+						filled = true
+					case x.Kind == engine.EvWrite && x.Field == "config/v2.PathValue.Index" && x.LHS == "elem("+inner+").Index" && x.RHS == tIdx:
+						stamped = true
+					}
+				}
+				if iterated && !(filled && stamped) {
+					o.Fail(&engine.Violation{Key: "reconcileInitialize|change proposal values", Pos: c.P.Pos(e.Pos), Func: engine.FuncChain(p, ref.Idx),
+						Msg: fmt.Sprintf("on a path that iterates the target's change, the proposal's values are not that change's (path, value) pairs stamped with the transaction index (filled=%v, stamped=%v)", filled, stamped)})
+				}
+			}
+		}
+		o.Done(h.min)
 	}
 }
